@@ -17,6 +17,7 @@ RULE = ('the bundled examples and random large grammars (depth <= 6, up to 12 de
         '(setarch -R), input from a path and from stdin - each writing the script, the --dfa and the --regex '
         'file, and R times inside one cgprobe process. All script / dfa / regex bytes of one (grammar, shell) '
         'must be identical. non-trivial = automaton with >= 8 transitions; distinct by hash of (text, shell)')
+RULE += ' ' + 'Families: 25-60 permuted within-word pairs per grammar; several external commands - plain, shell-specific, built-in - offered by one state, at one and at several || levels, at top level and inside words.'
 ASSUMPTIONS = ['measured in this sandbox: hashbrown 0.13 / ahash 0.8.3 (no runtime-rng) and ustr hash with fixed keys, so '
                'the work-list HashSets of dfa.rs iterate in one fixed order here; the monitor has teeth against std '
                'RandomState containers, address-keyed ordering, time and environment reaching an output path',
